@@ -280,15 +280,15 @@ def runStates (prog : Prog) (inp : Input) (limit : Nat) :
       let look : Runner := fun s0 dirFwd steps peak =>
         -- MatchAttempter::new(re).try_at_pos(*input, s, Dir): self.states.push(init_state.clone())
         runStates prog inp limit sf #[s0] dirFwd steps peak
+      -- `s = self.states.last_mut()` is mutated in place: take it off the stack and put it back
+      let rest := states.pop
       match tryMatchState prog inp look (prog.insns.size + 1) s fwd steps peak with
       | .err e => .error e
       | .outOfFuel => .outOfFuel
-      | .fail _ steps peak => runStates prog inp limit sf states.pop fwd steps peak
-      | .cont s steps peak =>
-        runStates prog inp limit sf (states.setIfInBounds (states.size - 1) s) fwd steps peak
+      | .fail _ steps peak => runStates prog inp limit sf rest fwd steps peak
+      | .cont s steps peak => runStates prog inp limit sf (rest.push s) fwd steps peak
       | .complete s steps peak => .matched s.pos s steps peak
-      | .split s new steps peak =>
-        runStates prog inp limit sf ((states.setIfInBounds (states.size - 1) s).push new) fwd steps peak
+      | .split s new steps peak => runStates prog inp limit sf ((rest.push s).push new) fwd steps peak
 
 /-- `MatchAttempter::new(re).try_at_pos(input, &mut init_state, dir)` with a tick budget of `fuel`:
 `matched` carries the new value of `*init_state`; on failure `*init_state` is unchanged. -/
